@@ -21,7 +21,11 @@ RULE = ("seeded random constraint graphs given to the real build_computation_gra
         "stars, rings, grids, disconnected unions, n-ary (arity 1-5) hypergraphs, isolated variables, "
         "no constraint at all, 1-22 variables, shuffled variable and constraint order, plus long "
         "structures (chains, rings, caterpillars, grids, deep trees, wide stars) of 200-3000 variables; "
-        "non-trivial = at least one constraint of arity >= 2; distinct = distinct case JSON")
+        "scopes may also contain external (read-only) variables, which are not nodes (lists / DCOP "
+        "constructor + external_variables / yaml loader paths); the Iterable arguments are given as list, "
+        "tuple, generator, iter/filter/map object or dict view; a quarter of the cases build the same "
+        "problem twice in the process and compare, and check that the caller's objects are untouched; "
+        "non-trivial = at least one constraint with >= 2 decision variables; distinct = distinct case JSON")
 MODELLED = ("the whole builder (neighbour derivation, both stable re-sorts, root choice, token-passing "
             "DFS, forest loop, preorder node listing) is an executable Gallina model compared node by "
             "node and in list order with the real graph.  THEOREMS about that model, for every "
@@ -72,7 +76,7 @@ def _rand_tree_edges(rng, ids):
 
 def _small(rng):
     kind = rng.choice(["sparse", "sparse", "dense", "tree", "clique", "star", "ring", "grid", "union",
-                       "nary", "nary", "mixed", "empty", "unary", "chain"])
+                       "nary", "nary", "mixed", "empty", "unary", "chain", "union_ext", "union_ext"])
     n = rng.randint(2, 22) if rng.random() < 0.9 else rng.randint(1, 5)
     ids = list(range(n))
     sc = []
@@ -102,7 +106,7 @@ def _small(rng):
             for y in range(h):
                 if x + 1 < w: sc.append([x * h + y, (x + 1) * h + y])
                 if y + 1 < h: sc.append([x * h + y, x * h + y + 1])
-    elif kind == "union":
+    elif kind in ("union", "union_ext"):
         k = rng.randint(2, 4)
         parts = [[] for _ in range(k)]
         for i in ids:
@@ -133,8 +137,24 @@ def _small(rng):
     sc = [[perm[i] for i in s] for s in sc]
     order = list(range(n))
     rng.shuffle(order)
-    return dict(kind=kind, n=n, order=order, scopes=sc, api=rng.choice(["dcop", "dcop_pre", "lists"]),
-                ctype=rng.choice(["fun", "matrix", "expr"]))
+    c = dict(kind=kind, n=n, order=order, scopes=sc,
+             api=rng.choice(["dcop", "dcop_pre", "lists", "lists", "dcop_ctor"]),
+             ctype=rng.choice(["fun", "matrix", "expr"]))
+    # external (read-only) variables: ids >= n inside scopes; they are not variables of the graph
+    if sc and (kind == "union_ext" or rng.random() < 0.12):
+        next_ = rng.randint(1, 2)
+        p = rng.choice([0.3, 0.6, 1.0])
+        for s_ in sc:
+            if rng.random() < p and len(s_) <= 4:
+                s_.insert(rng.randint(0, len(s_)), n + rng.randrange(next_))
+        c["api"] = rng.choice(["lists", "dcop_ctor", "yaml"])
+    if c["api"] == "lists":
+        # how the caller hands over the two Iterable arguments
+        c["citer"] = rng.choice(["list", "list", "tuple", "gen", "iter", "filter", "map", "dictvalues"])
+        c["viter"] = rng.choice(["list", "list", "tuple", "gen", "dictvalues"])
+    if rng.random() < 0.25:
+        c["twice"] = True          # a second build of the same problem in the same process
+    return c
 
 
 def _big(rng, tier, i):
@@ -195,10 +215,14 @@ def _vname(i):
 
 
 def _build_inputs(c):
-    from pydcop.dcop.objects import Variable, Domain
+    from pydcop.dcop.objects import Variable, Domain, ExternalVariable
     from pydcop.dcop.relations import NAryFunctionRelation, NAryMatrixRelation, constraint_from_str
     dom = Domain("d", "d", [0, 1])
     vs = {i: Variable(_vname(i), dom) for i in range(c["n"])}
+    for sc in c["scopes"]:
+        for i in sc:
+            if i >= c["n"] and i not in vs:
+                vs[i] = ExternalVariable(_vname(i), dom, 0)
     cons = []
     for k, sc in enumerate(c["scopes"]):
         name = "c%05d" % k
@@ -218,43 +242,44 @@ def _id(name):
     return int(name[1:])
 
 
-def run_impl(c):
-    from pydcop.dcop.dcop import DCOP
-    from pydcop.computations_graph import pseudotree as pt
-    vs, cons = _build_inputs(c)
-    if c["api"] == "lists":
-        variables = [vs[i] for i in c["order"]]
-        constraints = list(cons)
-        args = dict(dcop=None, variables=variables, constraints=constraints)
-    else:
-        dcop = DCOP("t", "min")
-        if c["api"] == "dcop_pre":
-            for i in c["order"]:
-                dcop.add_variable(vs[i])
-        for k in cons:
-            dcop.add_constraint(k)
-        for i in c["order"]:
-            if vs[i].name not in dcop.variables:
-                dcop.add_variable(vs[i])
-        variables = list(dcop.variables.values())
-        constraints = list(dcop.constraints.values())
-        args = dict(dcop=dcop)
-    obs = dict(vars=[_id(v.name) for v in variables],
-               scopes=[[_id(v.name) for v in k.dimensions] for k in constraints])
-    cid = {k.name: j for j, k in enumerate(constraints)}
-    old = sys.getrecursionlimit()
-    try:
-        sys.setrecursionlimit(1000)      # CPython's default: what a user of the library gets
-        g = pt.build_computation_graph(**args)
-    except RecursionError:
-        obs["error"] = "RecursionError"
-        return obs
-    except Exception as e:
-        obs["error"] = type(e).__name__
-        return obs
-    finally:
-        sys.setrecursionlimit(old)
-    obs["roots"] = [_id(r.name) for r in g.roots]
+def _iterable(kind, items, names):
+    if kind == "tuple":
+        return tuple(items)
+    if kind == "gen":
+        return (x for x in items)
+    if kind == "iter":
+        return iter(list(items))
+    if kind == "filter":
+        return filter(lambda x: True, list(items))
+    if kind == "map":
+        return map(lambda x: x, list(items))
+    if kind == "dictvalues":
+        return dict(zip(names, items)).values()
+    return list(items)
+
+
+def _yaml(c, vs):
+    ext = sorted(i for i in vs if i >= c["n"])
+    L = ["name: t", "objective: min", "domains:", "  d:", "    values: [0, 1]", "variables:"]
+    for i in c["order"]:
+        L.append("  %s: {domain: d}" % _vname(i))
+    if not c["order"]:
+        L[-1] = "variables: {}"
+    if ext:
+        L.append("external_variables:")
+        for i in ext:
+            L.append("  %s: {domain: d, initial_value: 0}" % _vname(i))
+    L.append("constraints:" if c["scopes"] else "constraints: {}")
+    for k, sc in enumerate(c["scopes"]):
+        L.append("  c%05d:" % k)
+        L.append("    type: intention")
+        L.append("    function: %s" % " + ".join(_vname(i) for i in sc))
+    L.append("agents: [a1]")
+    return "\n".join(L) + "\n"
+
+
+def _observe(pt, g, cid):
+    roots = [_id(r.name) for r in g.roots]
     nodes = []
     for node in g.nodes:
         parent, pps, children, pcs = pt.get_dfs_relations(node)
@@ -266,7 +291,78 @@ def run_impl(c):
             neighbors=sorted(_id(x) for x in node.neighbors),
             nlinks=len(list(node.links)),
             linkbad=sum(1 for l in node.links if l.source != node.name)))
-    obs["nodes"] = nodes
+    return roots, nodes
+
+
+def run_impl(c):
+    from pydcop.dcop.dcop import DCOP
+    from pydcop.computations_graph import pseudotree as pt
+    vs, cons = _build_inputs(c)
+    api = c["api"]
+    ext = {vs[i].name: vs[i] for i in vs if i >= c["n"]}
+    if api == "lists":
+        variables = [vs[i] for i in c["order"]]
+        constraints = list(cons)
+
+        def mkargs():
+            return dict(dcop=None,
+                        variables=_iterable(c.get("viter", "list"), variables, [v.name for v in variables]),
+                        constraints=_iterable(c.get("citer", "list"), constraints,
+                                              [k.name for k in constraints]))
+    else:
+        if api == "yaml":
+            from pydcop.dcop.yamldcop import load_dcop
+            dcop = load_dcop(_yaml(c, vs))
+        elif api == "dcop_ctor":
+            dcop = DCOP("t", "min", variables={vs[i].name: vs[i] for i in c["order"]},
+                        constraints={k.name: k for k in cons})
+            dcop.external_variables = dict(ext)
+        else:
+            dcop = DCOP("t", "min")
+            if api == "dcop_pre":
+                for i in c["order"]:
+                    dcop.add_variable(vs[i])
+            for k in cons:
+                dcop.add_constraint(k)
+            for i in c["order"]:
+                if vs[i].name not in dcop.variables:
+                    dcop.add_variable(vs[i])
+        variables = list(dcop.variables.values())
+        constraints = list(dcop.constraints.values())
+
+        def mkargs():
+            return dict(dcop=dcop)
+    obs = dict(vars=[_id(v.name) for v in variables],
+               scopes=[[_id(v.name) for v in k.dimensions] for k in constraints])
+    cid = {k.name: j for j, k in enumerate(constraints)}
+    old = sys.getrecursionlimit()
+    try:
+        sys.setrecursionlimit(1000)      # CPython's default: what a user of the library gets
+        a1 = mkargs()
+        keep = {k: (list(v) if isinstance(v, list) else None) for k, v in a1.items()}
+        g = pt.build_computation_graph(**a1)
+        obs["roots"], obs["nodes"] = _observe(pt, g, cid)
+        # the caller's objects are left as they were
+        changed = [k for k, v in a1.items() if isinstance(v, list) and v != keep[k]]
+        if api != "lists":
+            if [_id(v.name) for v in dcop.variables.values()] != obs["vars"] or \
+               [k.name for k in dcop.constraints.values()] != [k.name for k in constraints]:
+                changed.append("dcop")
+        if changed:
+            obs["inputs_changed"] = changed
+        if c.get("twice"):
+            g2 = pt.build_computation_graph(**mkargs())
+            r2, n2 = _observe(pt, g2, cid)
+            if r2 != obs["roots"] or n2 != obs["nodes"]:
+                obs["second_differs"] = True
+    except RecursionError:
+        obs["error"] = "RecursionError"
+        return obs
+    except Exception as e:
+        obs["error"] = type(e).__name__
+        return obs
+    finally:
+        sys.setrecursionlimit(old)
     return obs
 
 
@@ -274,9 +370,18 @@ def run_impl(c):
 def oracle(c, o):
     if "error" in o:
         return "build_computation_graph raised %s (%s, %d variables)" % (o["error"], c["kind"], c["n"])
-    vars_, scopes, nodes = o["vars"], o["scopes"], o["nodes"]
+    vars_, nodes = o["vars"], o["nodes"]
     if sorted(vars_) != list(range(c["n"])):
         return "driver: variable list is not the generated one"
+    if [sorted(s) for s in o["scopes"]] != [sorted(s) for s in c["scopes"]]:
+        return "driver: the constraints handed to the builder do not have the generated scopes"
+    # ground truth = the generated constraint graph over the decision variables (ids < n);
+    # ids >= n are external variables: no node, no edge
+    scopes = [[v for v in sc if v < c["n"]] for sc in c["scopes"]]
+    if o.get("inputs_changed"):
+        return "build_computation_graph modified the caller's %s" % ", ".join(o["inputs_changed"])
+    if o.get("second_differs"):
+        return "a second build of the same problem in the same process returns a different graph"
     ids = [x["id"] for x in nodes]
     if sorted(ids) != sorted(vars_):
         return "nodes %r are not one per variable %r" % (sorted(ids)[:10], sorted(vars_)[:10])
@@ -375,13 +480,13 @@ def coq_case(c, o):
     if "error" in o or c["n"] > BIG_COQ_CHECK:
         return None
     return "(mkCase (mkGraph %s %s) %s %s %s)" % (
-        q.zlist(o["vars"]), q.lst([q.zlist(s) for s in o["scopes"]]),
+        q.zlist(o["vars"]), q.lst([q.zlist([v for v in s if v < c["n"]]) for s in o["scopes"]]),
         q.zlist(o["roots"]), q.lst([_node_term(x) for x in o["nodes"]]),
         q.b(c["n"] <= c.get("model_build_max", BIG_COQ_BUILD)))
 
 
 def nontrivial(c, o):
-    return any(len(set(s)) >= 2 for s in c["scopes"])
+    return any(len(set(v for v in s if v < c["n"])) >= 2 for s in c["scopes"])
 
 
 def histogram(cases, obs):
@@ -389,6 +494,10 @@ def histogram(cases, obs):
     for c, o in zip(cases, obs):
         k = c["kind"]
         h[k] = h.get(k, 0) + 1
+        for tag in (["external"] if any(v >= c["n"] for s in c["scopes"] for v in s) else []) + \
+                (["citer:" + c["citer"]] if c.get("citer", "list") != "list" else []) + \
+                (["twice"] if c.get("twice") else []) + ["api:" + c["api"]]:
+            h[tag] = h.get(tag, 0) + 1
         b = "n<=5" if c["n"] <= 5 else "n<=12" if c["n"] <= 12 else "n<=22" if c["n"] <= 22 else \
             "n<=400" if c["n"] <= 400 else "n>400"
         h[b] = h.get(b, 0) + 1
